@@ -425,6 +425,12 @@ fn main() {
     sl.sort();
     println(sl);
 }`)},
+	{"limit-error-with-compound-operands", Single(`
+fn same(l: [int]) -> [int] { if l == same(l) { l } else { l } }
+fn main() { println(same([1, 2])); }`)},
+	{"limit-error-with-object-operands", Single(`
+fn grow(o: { n: int, tag: str }) -> { n: int, tag: str } { let p = new { n: o.n + 1, tag: o.tag }; if grow(p).n > 0 { p } else { o } }
+fn main() { println(grow(new { n: 0, tag: "t" })); }`)},
 	{"cast-two-wrong-fields", Single(`
 fn main() {
     try {
